@@ -31,6 +31,19 @@ int pipe_init(int *read, int *write)
     goto finish;
   }
 
+  // Keep the pipe away from the standard streams: if the parent process closed
+  // one of them, `pipe` hands out its number and the child process would end up
+  // with the wrong object (or nothing) on that stream.
+  r = handle_above_stdio(&pair[0]);
+  if (r < 0) {
+    goto finish;
+  }
+
+  r = handle_above_stdio(&pair[1]);
+  if (r < 0) {
+    goto finish;
+  }
+
   r = handle_cloexec(pair[0], true);
   if (r < 0) {
     goto finish;
